@@ -2,8 +2,11 @@ package main
 
 import (
 	"fmt"
+	"go/token"
 	"go/types"
 	"strings"
+
+	"golang.org/x/tools/go/ssa"
 )
 
 // modLoc is one location set named by a modifies clause.
@@ -336,8 +339,79 @@ func (g *VCGen) havocAllBut(pre *State, keep []modLoc) *State {
 			facts = append(facts, fmt.Sprintf("(forall ((fi Int)) (! (=> (and (<= %s fi) (< fi %s)) (= (select (select %s %s) fi) (select (select %s %s) fi))) :pattern ((select (select %s %s) fi))))", l.lo, l.hi, b, l.ref, a, l.ref, b, l.ref))
 		}
 	}
+	// cells of local variables whose address never leaves this function cannot be touched by any callee
+	for v, sv := range g.vals {
+		al, ok := v.(*ssa.Alloc)
+		if !ok || !privateAlloc(al) {
+			continue
+		}
+		et := al.Type().Underlying().(*types.Pointer).Elem()
+		if _, isArr := et.Underlying().(*types.Array); isArr || g.isImmutable(et) {
+			continue
+		}
+		heap := g.so.heapFor(et)
+		facts = append(facts, fmt.Sprintf("(= (select %s %s) (select %s %s))", g.heapTerm(post, heap), sv.T, g.heapTerm(pre, heap), sv.T))
+	}
 	if len(facts) > 0 {
 		g.assumeHere(and(facts...))
 	}
 	return post
+}
+
+// privateAlloc: the cell is only ever loaded, stored to, or field-selected (its address does not escape)
+func privateAlloc(al *ssa.Alloc) bool {
+	var ok func(v ssa.Value) bool
+	ok = func(v ssa.Value) bool {
+		refs := v.Referrers()
+		if refs == nil {
+			return false
+		}
+		for _, r := range *refs {
+			switch x := r.(type) {
+			case *ssa.DebugRef:
+			case *ssa.UnOp:
+				if x.Op != token.MUL {
+					return false
+				}
+			case *ssa.Store:
+				if x.Val == v {
+					return false
+				}
+			case *ssa.MakeClosure:
+				// captured by a closure that is only deferred or called in place: still local to this function
+				crefs := x.Referrers()
+				if crefs == nil {
+					return false
+				}
+				for _, cr := range *crefs {
+					switch y := cr.(type) {
+					case *ssa.Defer:
+						if y.Call.Value != ssa.Value(x) {
+							return false
+						}
+					case *ssa.Call:
+						if y.Call.Value != ssa.Value(x) {
+							return false
+						}
+					case *ssa.DebugRef:
+					default:
+						return false
+					}
+				}
+			case *ssa.FieldAddr:
+				if _, isStruct := x.Type().Underlying().(*types.Pointer).Elem().Underlying().(*types.Struct); isStruct {
+					// the address of a struct-typed field may be used as a method receiver: follow it
+					if !ok(x) {
+						return false
+					}
+				} else if !ok(x) {
+					return false
+				}
+			default:
+				return false
+			}
+		}
+		return true
+	}
+	return ok(al)
 }
